@@ -702,11 +702,13 @@ func (ev *Eval) call(e *Expr) *Value {
 	switch e.Name {
 	case "locked":
 		// value of e right after the function under verification first acquired a monitor lock
-		if ev.v.firstLockSnap == nil {
-			ev.fail("locked(...) used but no monitor lock was acquired on this path")
+		snap := ev.st.lockSnap
+		if snap == nil {
+			// no guarded lock on this path: locked(e) degenerates to the entry state
+			snap = ev.v.entry
 		}
 		saveOld, saveIn := ev.old, ev.inOld
-		ev.old, ev.inOld = ev.v.firstLockSnap, true
+		ev.old, ev.inOld = snap, true
 		r := ev.eval(e.Args[0])
 		ev.old, ev.inOld = saveOld, saveIn
 		return r
